@@ -160,8 +160,8 @@ _extend('C01', 'ADDED (unit S-setops): apply_set_operation against SQL bag seman
 
 NOT_APPLICABLE['C13'] = ("begin/rollback are two clone()s of catalog and tables; the state the property worries about lives outside their frame (the CREATE INDEX registry, "
                          "caches) - an absent assignment cannot be refuted by a contract on these functions. Partially reached under other properties: the CONTENTS of the "
-                         "user-defined indexes are rebuilt after ROLLBACK (fix 3518c656, unit K-undo rollback_transaction, counted under C02/C14); CREATE INDEX / DROP INDEX "
-                         "inside a rolled-back transaction still survive it (observed, DESIGN 9b)")
+                         "user-defined indexes are rebuilt after ROLLBACK (fix 3518c656) and the SET of index definitions is brought back to the one recorded at BEGIN "
+                         "(fix 4585fb51) - both unit K-undo rollback_transaction, counted under C15/C02/C14. Other registries outside catalog and tables (spatial indexes, caches) are not examined")
 
 _extend('C10', 'ADDED (units K-rowval, I-probe): RowValidator::validate_column_constraints extracts PRIMARY KEY / UNIQUE / FOREIGN KEY keys in the order of the constraint\'s column list '
         '(the order the indexes use) and enforces NOT NULL; IndexData::contains_key - the CREATE UNIQUE INDEX membership test - normalizes its probe like the stored keys.')
@@ -212,3 +212,4 @@ _extend('C10', 'ADDED (unit N-track): within a multi-row INSERT the UNIQUE key o
 
 _extend('C14', 'ADDED (units K-undo revised, F-cascade): the undo of a change works on rows in their STORED form (the change log holds rows as handed in; Table::remove_row / insert normalize); ON DELETE CASCADE deletes and records '
         'every referencing child row with its multiplicity. Self-referencing foreign keys (referential actions changing the very table a DELETE / UPDATE is being applied to) are NOT covered: observed defect, DESIGN 9b.')
+_extend('C10', 'ADDED (unit K-uqprobe): the key with which UPDATE probes a CREATE UNIQUE INDEX index for the new row is built from the columns the index names, prefix-truncated like the stored keys, in definition order (fix 51980647: it was not truncated).')
